@@ -323,11 +323,65 @@ class T(cohdl.Entity):
 """
 
 
+def render_fifo2(cfg):
+    """two delayed Fifos whose push ends live in one context and whose pop ends live in another one;
+    Fifo 0 has (tx, rx), Fifo 1 has (rx, tx); each with its own requests"""
+    _, T, n, tx, rx, _ = cfg
+    ports = "    clk = Port.input(Bit)\n"
+    decl = push = pop = ""
+    for i, (t, r) in enumerate(((tx, rx), (rx, tx))):
+        ports += f"""    push_req{i} = Port.input(Bit)
+    push_data{i} = Port.input({T})
+    pop_req{i} = Port.input(Bit)
+    push_ack{i} = Port.output(Bit, default=False)
+    pop_valid{i} = Port.output(Bit, default=False)
+    pop_data{i} = Port.output({T}, default=Null)
+"""
+        decl += f"        fifo{i} = std.Fifo[{T}, {n}](name=\"fifo{i}\", {delay_kwargs(t, r)})\n"
+        push += f"""            self.push_ack{i} <<= False
+            if self.push_req{i} and not fifo{i}.full():
+                fifo{i}.push(self.push_data{i})
+                self.push_ack{i} <<= True
+"""
+        pop += f"""            self.pop_valid{i} <<= False
+            self.pop_data{i} <<= Null
+            if self.pop_req{i} and not fifo{i}.empty():
+                self.pop_data{i} <<= fifo{i}.pop()
+                self.pop_valid{i} <<= True
+"""
+    return f"""{HEADER}
+
+class T(cohdl.Entity):
+{ports}
+    def architecture(self):
+        clk = std.Clock(self.clk)
+{decl}
+        @std.sequential(clk)
+        def sender():
+{push}
+        @std.sequential(clk)
+        def receiver():
+{pop}"""
+
+
+def fifo2_configs(thorough):
+    out = [("fifo2", "Bit", 2, 1, 1, 2), ("fifo2", "Bit", 2, 1, 2, 2), ("fifo2", "Bit", 3, 1, 1, 2), ("fifo2", "Bit", 2, 0, 1, 2)]
+    if thorough:
+        out += [("fifo2", "Bit", 3, 1, 2, 2), ("fifo2", "Bit", 2, 2, 2, 2), ("fifo2", "Bit", 2, 3, 1, 2),
+                ("fifo2", "BitVector[2]", 2, 1, 1, 2), ("fifo2", "Bit", 4, 1, 1, 2)]
+    return out
+
+
 def render(cfg):
+    if cfg[0] == "fifo2":
+        return render_fifo2(cfg)
     return render_fifo(cfg) if cfg[0] == "fifo" else render_stack(cfg)
 
 
 def key(cfg):
+    if cfg[0] == "fifo2":
+        _, T, n, tx, rx, ctxs = cfg
+        return f"fifo2/{T}/N={n}/tx={tx},rx={rx}+tx={rx},rx={tx}/ctx={ctxs}"
     if cfg[0] == "fifo":
         _, T, n, tx, rx, ctxs = cfg
         return f"fifo/{T}/N={n}/tx={tx},rx={rx}/ctx={ctxs}"
